@@ -7,8 +7,8 @@
 #include "keyfile.h"     /* the library's own (private) definition of econf_file: only for the canonical form */
 
 /* ---- alphabet (harness may override before bfs_run) ---- */
-static const char *e2_sec[8] = { NULL, "", "A", "[A]", "B" }; static int e2_nsec = 5;
-static const char *e2_key[4] = { "x", "y", "z" }; static int e2_nkey = 3;
+static const char *e2_sec[8] = { NULL, "", "A", "[A]", "AB" }; static int e2_nsec = 5;   /* "A" is a proper prefix of "AB" on purpose */
+static const char *e2_key[4] = { "x", "xy", "z" }; static int e2_nkey = 3;            /* "x" is a proper prefix of "xy" on purpose */
 static const char *e2_val[8] = { "1", "2" }; static int e2_nval = 2;
 static int e2_nstarts_used = 8;
 
@@ -17,6 +17,7 @@ static const char *e2_canon_sec(const char *s)   /* reference: "" and NULL = gro
   if (!s || !*s) return NULL;
   if (!strcmp(s, "[A]")) return "A";
   if (!strcmp(s, "[B]")) return "B";
+  if (!strcmp(s, "[AB]")) return "AB";
   return s;
 }
 
